@@ -83,6 +83,7 @@ Definition cache_step (c : cache) (ad : bool) (o : op) (r : res) : cache :=
   | OTick => c
   | ODnl => c
   | OMgmtCap u => c_mgmtcap c u
+  | OStaleRemove _ _ => c
   end.
 
 (* a history seen from the cache: each element is (csAdmit flag, operation, what the step answered) *)
